@@ -2176,6 +2176,12 @@ class Piece:
                         mb = re.search(r"set_env_var_if_absent!\(\s*" + re.escape(toks[k + 3].text) + r"\s*,\s*(\"(?:[^\"\\]|\\.)*\")\s*,?\s*\)", bs)
                         if mb:
                             val = mb.group(1)
+                        else:
+                            # `set_data_path_if_absent!` / `set_cfg_path_if_absent!` / `set_runstate_path_if_absent!("NAME", "FILE")`: FILE under the
+                            # data / configuration / run-state directory of the build (the directory itself stays symbolic)
+                            mb = re.search(r"set_(data|cfg|runstate)_path_if_absent!\(\s*" + re.escape(toks[k + 3].text) + r"\s*,\s*\"((?:[^\"\\]|\\.)*)\"\s*,?\s*\)", bs)
+                            if mb:
+                                val = f'"<{mb.group(1)} directory>/{mb.group(2)}"'
                     except OSError:
                         pass
                 self._add(toks[k].start, toks[kc].end, val, "T-ENV", order=-99)
